@@ -154,3 +154,15 @@ pub open spec fn inc_prefix(prev: Seq<u8>) -> Seq<u8> { prev + inc_newline(prev)
 pub open spec fn inc_layout(d: IncrementalDocument) -> Seq<u8> {
     inc_prefix(d.bytes_documents@) + doc_layout(d.new_document, d.prev_documents.reference_table.cross_reference_type, inc_prefix(d.bytes_documents@).len())
 }
+
+// ---- content streams (ISO 32000-1 7.8.2): operands each followed by one space, then the operator; operations joined by '\n'
+#[verifier::external_body]
+pub fn string_as_bytes(s: &std::string::String) -> (r: &[u8]) ensures r@ == str_bytes(*s) { unimplemented!() }
+pub open spec fn enc_operands(a: Seq<Object>, i: int) -> Seq<u8> decreases i {
+    if i <= 0 || i > a.len() { Seq::<u8>::empty() } else { enc_operands(a, i - 1) + enc_obj(a[i - 1]) + seq![0x20u8] }
+}
+pub open spec fn enc_operation(op: Operation) -> Seq<u8> { enc_operands(op.operands@, op.operands@.len() as int) + str_bytes(op.operator) }
+pub open spec fn enc_content(ops: Seq<Operation>, i: int) -> Seq<u8> decreases i {
+    if i <= 0 || i > ops.len() { Seq::<u8>::empty() } else { enc_content(ops, i - 1) + sep_nl(i - 1 > 0) + enc_operation(ops[i - 1]) }
+}
+pub open spec fn sep_nl(b: bool) -> Seq<u8> { if b { seq![0x0au8] } else { Seq::<u8>::empty() } }
